@@ -493,6 +493,10 @@ func c15GenWorld(r *rand.Rand, kind int) c15World {
 	if kind == 4 { // ids with '-' (open finding C15-edge-id-dash: E(id) cannot find them)
 		rowIDs = []string{"1", "a-b", "3", "u-1-2", "x", "4"}
 	}
+	if kind == 5 { // word prefixes, row ids whose leading characters occur in their prefix
+		prefixes = []string{"Person:", "City:", "son:", "Pet:"}
+		rowIDs = []string{"sam", "ron", "eve", "tyr", "erso", "1"}
+	}
 	nv := 1 + r.Intn(4)
 	if kind == 0 {
 		nv = 3
@@ -567,8 +571,8 @@ func c15GenWorld(r *rand.Rand, kind int) c15World {
 			if j == 0 && r.Intn(12) != 0 {
 				d["f"], d["t"] = Pick(r, c15RowIDs[:4]), Pick(r, c15RowIDs[:4])
 			}
-			if kind == 4 && j < 3 {
-				d["f"], d["t"] = Pick(r, rowIDs[:4]), Pick(r, rowIDs[:4])
+			if (kind == 4 || kind == 5) && j < 3 {
+				d["f"], d["t"] = Pick(r, rowIDs[:4]), Pick(r, rowIDs[:4]) // (kind 5: sam, ron, eve, tyr)
 			}
 			if kind == 0 {
 				switch j {
@@ -874,6 +878,8 @@ func c15Gen(r *Run) {
 			kind = 3 // overlapping prefixes: always reached
 		case wi == 3:
 			kind = 4 // ids with '-': always reached
+		case wi == 4 || wi%10 == 7:
+			kind = 5 // word prefixes: always reached
 		case wi%10 == 9:
 			kind = 3
 		case wi%10 == 5:
